@@ -383,6 +383,9 @@ class BodyPartReader:
         encoding = self.headers.get(CONTENT_TRANSFER_ENCODING)
         if encoding and encoding.lower() == "base64":
             chunk = self._align_base64_chunk(chunk, len(carry) + want)
+            if not chunk and self._b64_carry:
+                # A short read held no whole quartet yet, all of it is carried.
+                return await self.read_chunk(size)
 
         if self._read_bytes == self._length:
             self._at_eof = True
@@ -410,10 +413,11 @@ class BodyPartReader:
             cut -= 1
             if chunk[cut] in _BASE64_CHARS:
                 left -= 1
-        if not cut:
+        if not cut and len(chunk) >= size:
             # No whole quartet to hand back, and carrying the lot would make
             # no progress: the caller asked for this many bytes, and a part
             # that holds no quartet within them holds none to give.
+            # A shorter chunk is carried whole, more of the part is to come.
             return chunk
 
         self._b64_carry = chunk[cut:] + self._b64_carry
